@@ -101,24 +101,30 @@ def rule_r1(ctx: Ctx) -> None:
            False if bad else (None if und else True), bad[0] if bad else (und or ""), witness=bad[1] if bad else {"scenarios": n})
     ctx.floor("C19.R1", n, 2, "interpreted update_weights scenarios")
 
-    # get_weights default
+    # get_weights: interpreted on three productions - one without a declared weight, one declared 0, one declared 2.5
     gw = ctx.fn(GETW)
-    gets = [c for c in walk_local(gw.node) if isinstance(c, ast.Call) and call_name(c) == "get" and c.args and isinstance(c.args[0], ast.Constant)
-            and c.args[0].value == "weight"]
-    ok = False
-    why = "get_weights does not read the 'weight' entry with a default"
-    if len(gets) == 1:
-        g = gets[0]
-        dflt = g.args[1] if len(g.args) > 1 else None
-        wrapped = isinstance(parent(g), ast.BoolOp)
-        ok = dflt is not None and isinstance(dflt, ast.Constant) and dflt.value == 1 and not wrapped
-        if wrapped:
-            why = f"'{norm(parent(g))}' replaces every falsy weight by the default: a declared weight of 0 silently becomes 1.0, so a zero-weight production gets a positive share"
-        elif dflt is None:
-            why = "no default: unweighted productions get None"
-        elif not ok:
-            why = f"the default weight is {norm(dflt)}, not 1"
-    ctx.ob("C19.R1", gw, gets[0] if gets else gw.node, "unweighted productions count as exactly 1.0; declared weights are kept (0 stays 0)", ok, "" if ok else why)
+    meta = {"P1": {}, "P2": {"weight": 0}, "P3": {"weight": 2.5}}
+
+    def call_model_gw(it, call, env, args, kwargs):
+        if call_name(call) == "get_gengy" and len(args) == 1 and isinstance(args[0], Sym):
+            return dict(meta.get(args[0].tag, {}))
+        return None
+
+    itg = Interp(ctx.prog, gw.cls, lambda *_: None, call_model_gw, max_depth=5, max_traces=8)
+    ok: Optional[bool] = None
+    why = "get_weights is not followed"
+    try:
+        runs = itg.run(gw, {"self": Sym("self"), "self.all_nodes": [Sym("P1"), Sym("P2"), Sym("P3")]})
+        vals = [rv for tr, rv, nts in runs if not any(e.kind == "raise" for e in tr)]
+        if len(vals) == 1 and isinstance(vals[0], dict) and set(vals[0]) >= {"P1", "P2", "P3"} and all(isinstance(vals[0][k], (int, float)) for k in ("P1", "P2", "P3")):
+            got = {k: vals[0][k] for k in ("P1", "P2", "P3")}
+            ok = got == {"P1": 1.0, "P2": 0, "P3": 2.5}
+            why = "" if ok else (f"for productions declared (none, 0, 2.5) get_weights reports {got}: "
+                                 + ("a declared weight of 0 silently becomes the default, so a zero-weight production gets a positive share" if got["P2"] != 0
+                                    else "an unweighted production does not count as exactly 1.0" if got["P1"] != 1.0 else "a declared weight is not kept"))
+    except Budget:
+        pass
+    ctx.ob("C19.R1", gw, gw.node, "unweighted productions count as exactly 1.0; declared weights are kept (0 stays 0)", ok, "" if ok else why)
 
 
 def _anc(n):
@@ -136,7 +142,8 @@ def rule_r2(ctx: Ctx) -> None:
                 for t in tg:
                     if isinstance(t, ast.Subscript) and isinstance(t.slice, ast.Constant) and t.slice.value == "weight":
                         n += 1
-                        ok = f.fullname == UPDATE or f.fullname.startswith("geneticengine.grammar.decorators:weight")
+                        from .common import weight_writers
+                        ok = f.fullname in weight_writers(prog)
                         ctx.ob("C19.R2", f, nd, "store to a production weight", ok,
                                "" if ok else "production weights are rewritten outside the weight decorator / update_weights")
     # extract_grammar normalises exactly when a weight is declared (a declared weight of 0 is a declared weight): interpreted
@@ -299,6 +306,20 @@ def rule_r3(ctx: Ctx) -> None:
                         ok = v in {x.id for x in ast.walk(wsrc.elt) if isinstance(x, ast.Name)}
                         if not ok:
                             why = "the weight expression does not depend on the element it is paired with"
+                elif isinstance(wsrc, ast.List) and not wsrc.elts and isinstance(w, ast.Name):
+                    # weights = []; for alt in <choices>: weights.append(<expr of alt>)   - one append per element, unconditionally
+                    loops = [l for l in walk_local(f.node) if isinstance(l, ast.For) and norm(base(l.iter)) == norm(chb) and isinstance(l.target, ast.Name)]
+                    apps = [(l, x) for l in loops for x in ast.walk(l) if isinstance(x, ast.Call) and call_name(x) == "append"
+                            and isinstance(x.func, ast.Attribute) and isinstance(x.func.value, ast.Name) and x.func.value.id == w.id]
+                    other = [x for x in walk_local(f.node) if isinstance(x, ast.Call) and call_name(x) in ("append", "extend", "insert")
+                             and isinstance(x.func, ast.Attribute) and isinstance(x.func.value, ast.Name) and x.func.value.id == w.id
+                             and not any(x is a_[1] for a_ in apps)]
+                    if len(apps) == 1 and not other and isinstance(parent(parent(apps[0][1])), ast.For) \
+                            and apps[0][0].target.id in {x.id for x in ast.walk(apps[0][1]) if isinstance(x, ast.Name)}:
+                        ok = True
+                    else:
+                        ok = None
+                        why = f"how '{w.id}' is filled is not followed"
                 elif isinstance(wsrc, (ast.Name, ast.Attribute)):
                     ok = True  # caller-provided parallel list (metahandler matrix row): alignment is the caller's contract
                     ctx.accept("C19.R3", f.loc(c), "weights are a caller-supplied parallel sequence (probability-matrix row for an alphabet)")
